@@ -196,7 +196,8 @@ class BuildError(Exception):
 
 
 def run_harness(exe, prop, seed, n, tier, replay=None, shard=400, timeout=3000, extra=()):
-    out = os.path.join(BUILD, "cases", prop + ("" if REPO == "/repo" else "_" + os.path.basename(exe).split("_")[-1]))
+    # unique per process: concurrent runs of the same check must not wipe each other's cases
+    out = os.path.join(BUILD, "cases", "%s_%d" % (prop, os.getpid()))
     shutil.rmtree(out, ignore_errors=True)
     os.makedirs(out)
     cmd = [exe, "--seed", str(seed), "--n", str(n), "--out", out, "--tier", tier, "--shard", str(shard)] + list(extra)
